@@ -46,8 +46,12 @@ def ampycloud_code_objects():
 
 
 class Scheduler:
-    def __init__(self, switches=()):
-        """ switches: iterable of (global step number, preferred target thread index). """
+    def __init__(self, switches=(), loc_plan=()):
+        """ switches: iterable of (global step number, preferred target thread index).
+        loc_plan: ordered list of (thread index, (file suffix, function, line), target thread): the next entry
+        fires when that thread executes that source line. """
+        self.loc_plan = [(int(e[0]), tuple(e[1]), int(e[2]), int(e[3]) if len(e) > 3 else 1) for e in loc_plan]
+        self.loc_count = {}
         self.switches = {}
         for step, tgt in switches:
             self.switches.setdefault(int(step), int(tgt))
@@ -94,6 +98,23 @@ class Scheduler:
             if loc not in self.first_seen:
                 self.first_seen[loc] = self.steps
             tgt = self.switches.get(self.steps)
+            if tgt is None and self.loc_plan and self.loc_plan[0][0] == me:
+                want = self.loc_plan[0][1]
+                if (loc[0].split('/ampycloud/')[-1], loc[1], loc[2]) == want:
+                    key = (me, want, len(self.loc_plan))
+                    self.loc_count[key] = self.loc_count.get(key, 0) + 1
+                    if self.loc_count[key] < self.loc_plan[0][3]:
+                        return
+                    tgt = self.loc_plan.pop(0)[2]
+                    if not (0 <= tgt < len(self.alive) and self.alive[tgt] and tgt != me):
+                        tgt = None
+                    else:
+                        self.switch_log.append((self.steps, me, tgt))
+                        self.baton = tgt
+                        self.cv.notify_all()
+                        while self.baton != me:
+                            self.cv.wait()
+                        return
             if tgt is not None:
                 nxt = self._pick(tgt, exclude=me)
                 if nxt is not None and nxt != me:
